@@ -10,7 +10,8 @@ TEXT = ('Resources are never destroyed on the audio thread (Engine A: no dealloc
         'sites propagate the limit error (never unwrap); every path that returns after a successful try_reserve hands the key to insert_with_key (no leaked slot); every handle with a removal flag sets it on drop and the audio-side '
         'predicate of the matching storage reads it; keys inside the public ids flow only into generation-checked arena '
         'APIs; handles are not Clone (thorough: compile-fail witnesses) and creation paths cannot panic (thorough: effect '
-        'analysis from creation roots). Exact accounting over long histories and the two-thread handshake are not decided.')
+        'analysis from creation roots). Exact accounting over long histories and the two-thread handshake are not decided.'
+        ' A sound that play() reports as created was inserted.')
 TECHNIQUE = 'MIR effect analysis (free) + move-flow / must-pass / error-discipline / drop-pairing rules'
 
 RS = 'backend::resources::ResourceStorage::<T>'
@@ -39,11 +40,37 @@ def run(ctx, R, tier):
     drops(F, R)
     keys(F, R)
     reserve(F, R)
+    play_inserts(F, R)
     if tier == 'thorough':
         from ..witness import run_witnesses
         run_witnesses(R, 'C08')
         from ..creation import run_creation
         run_creation(ctx, R)
+
+
+def play_inserts(F, R):
+    """A sound that `play` reports as created is handed to the audio thread: in every function that turns sound data into a
+    sound (`SoundData::into_sound`), each path that returns Ok passes ResourceController::insert (or insert_with_key)."""
+    n = 0
+    for b in F.bodies:
+        if b.krate != 'kira' or '{closure' in b.path:
+            continue
+        isd = [bb for bb, t in b.calls() if (callee_path(t) or '') == 'sound::SoundData::into_sound']
+        if not isd or b.path.endswith('::into_sound'):
+            continue
+        ins = set(bb for bb, t in b.calls() if (callee_path(t) or '').startswith('backend::resources::ResourceController::<T>::insert'))
+        n += 1
+        bad = None
+        for p in explore(b):
+            if p.end != 'return':
+                continue
+            r = str(p.ret)
+            if ('Result::Ok' in r or '::Ok(' in r) and not (set(p.blocks) & ins):
+                bad = r[:80]
+        R.check(bad is None and bool(ins), 'B.C08.play', b.path,
+                '%s can return Ok (%s) without inserting the sound: the handle refers to a sound that never reaches the audio thread' % (b.path, bad),
+                detail='into_sound()? ; controller.insert(sound)? ; Ok(handle)', where=b.file)
+    R.floor('B.C08.play', n, 3)
 
 
 def reserve(F, R):
